@@ -16,8 +16,8 @@ from .. import roles
 from .. import guards as G
 from ..model import AnalysisError, Unknown, dotted, src
 
-TECHNIQUE = "queue-discipline usage classification, key/role agreement, must-once accounting and guard dominance over the EPR bookkeeping (static analysis)"
-ENGINES = ["model", "flow"]
+TECHNIQUE = "queue-discipline usage classification, key/role agreement, must-once accounting and guard dominance over the EPR bookkeeping; abstract interpretation of small functions over an enumerated finite domain by the checker's own AST interpreter (static analysis)"
+ENGINES = ["model", "flow", "circuit"]
 EXPLANATION = (
     "Over backend/executor.py: every use of the two request dictionaries is classified (append at the tail, peek [0], pop(0), len) and "
     "any other access form is a violation; the pending-response list is appended to, scanned in order and popped at the scan index "
